@@ -231,7 +231,23 @@ def check_dispatch(R, prog):
                 else:
                     R.bad(F("DISPATCH-LITERALS", caller, "%s(%s=%r)" % (fi.qualname, p, v),
                             "this call passes %r but %s only handles %s: the request falls through every branch" % (v, fi.qualname, sorted(lits)), call))
-    R.floor("DISPATCH-LITERALS", nsites, 5)
+    extra = 0
+    if nsites < 5:
+        # a constructor that selects by a literal in a way the shape rule does not recognise (a table of names, a mapping): the
+        # VariablesManager.new_<kind> methods that pass such a literal are folded through that constructor by GROUP-SEMANTICS
+        from . import _groups_fold as gf
+        vm = prog.cls(VARS, "VariablesManager")
+        for kind in gf.KINDS:
+            fi = vm.methods.get("new_" + kind)
+            if fi is None:
+                continue
+            lit = [k for c in walk_shallow(fi.node) if isinstance(c, ast.Call) for k in c.keywords if isinstance(const(k.value), str) and k.arg and "type" in k.arg]
+            if lit and gf.verdict(prog, kind)[0] is True:
+                extra += 1
+                R.unknown("DISPATCH-LITERALS", "new_%s selects the kind of index by the literal %r" % (kind, const(lit[0].value)), fi.key,
+                          "shape not recognised (no comparison chain on the parameter); the meaning of the fragment was confirmed by folding: "
+                          + gf.verdict(prog, kind)[1][:120])
+    R.floor("DISPATCH-LITERALS", nsites + extra, 5)
 
 
 # ------------------------------------------------------------------ names aligned
